@@ -231,3 +231,66 @@ def _lagrange_with_history(h, ptype):
 for _p in ('lagrange_inequality', 'lagrange_equality'):
     contract('C15/%s/value-with-stored-multipliers' % _p, ['C15'], P + _p + '.dec.func')(
         lambda h, p=_p: _lagrange_with_history(h, p))
+
+
+# ---------------------------------------------------------------- clear() really empties the stored history
+def _store_clear(h, ptype):
+    """store(x, i) then clear(): the history is empty again, stored(i) gives the 0.0 default, n is 0 (and a later
+    evaluation uses no stale multiplier: same value as a fresh penalty)"""
+    k, hh, cond, f, func, _ = _setup(h, ptype, 'zero')
+    store, stored, clear, it, iteration = (h.getattr(func, a) for a in ('store', 'stored', 'clear', 'iter', 'iteration'))
+    x0 = h.list_real('x0')
+    i = h.choice('i', [0, 2])
+    c0, e0 = h.call_raises(cond, x0)
+    h.call(store, x0, i)
+    h.call(it)
+    h.call(clear)
+    s = h.call(stored)
+    h.check('clear-empties-stored-history', 'len(s) == 0', s=s)
+    h.check('stored(i)-default-after-clear', 'v == 0', v=h.call(stored, i))
+    h.check('clear-resets-n', 'n == 0', n=h.call(iteration))
+    h.call(it)          # n = 1 again, nothing stored: the multiplier must be 0
+    fresh = h.call(h.call(h.get(P + ptype), cond, k=k, h=hh), f)
+    h.call(h.getattr(fresh, 'iter'))
+    x = h.list_real('x')
+    r1, e1 = h.call_raises(func, x)
+    r2, e2 = h.call_raises(fresh, x)
+    h.check('after-clear-behaves-as-fresh-penalty-at-the-same-n', 'e1 == e2 and (e1 is not None or eq(r1, r2))', r1=r1, r2=r2, e1=e1, e2=e2)
+
+
+for _p in ('lagrange_inequality', 'lagrange_equality'):
+    contract('C15/%s/store-clear' % _p, ['C15'], P + _p + '.clear',
+             loops=dict([loop('mystic/penalty.py', _p + '.clear', 0, '[_y.pop() for i in range(len(_y))]',
+                              ['len(_y) == entry(len(_y)) - _i_'], modifies=['_y']),
+                         loop('mystic/penalty.py', _p + '.dec.func', 0, 'for i in range(_n[0])',
+                              ['beta == 0' if _p.endswith('inequality') else 'lam == 0', '_k == k*Pow(h, _i_)'])]))(
+        lambda h, p=_p: _store_clear(h, p))
+
+
+# ---------------------------------------------------------------- iter() advances every level by one
+def _iter_levels(h, outer, inner):
+    """inner penalty advanced on its own to n = j, then wrapped; outer.iter() (no argument) advances BOTH by one;
+    outer.iter(i) sets both to i"""
+    k, hh = h.real('k'), h.real('h')
+    h.assume('k > 0 and h > 0', k=k, h=hh)
+    c1, c2 = h.fn('cond1', ret='real'), h.fn('cond2', ret='real')
+    f = h.fn('f', ret='real')
+    inner_f = h.call(h.call(h.get(P + inner), c2, k=k, h=hh), f)
+    j = h.int('j')
+    h.assume('j >= 0', j=j)
+    h.call(h.getattr(inner_f, 'iter'), j)
+    outer_f = h.call(h.call(h.get(P + outer), c1, k=k, h=hh), inner_f)
+    h.call(h.getattr(outer_f, 'iter'))
+    h.check('iter()-advances-each-level-by-one', 'no == 1 and ni == j + 1',
+            no=h.call(h.getattr(outer_f, 'iteration')), ni=h.call(h.getattr(inner_f, 'iteration')), j=j)
+    i = h.int('i')
+    h.assume('i >= 0', i=i)
+    h.call(h.getattr(outer_f, 'iter'), i)
+    h.check('iter(i)-sets-every-level', 'no == i and ni == i',
+            no=h.call(h.getattr(outer_f, 'iteration')), ni=h.call(h.getattr(inner_f, 'iteration')), i=i)
+
+
+for _o, _i in [('quadratic_equality', 'quadratic_inequality'), ('linear_inequality', 'lagrange_equality'),
+               ('uniform_equality', 'barrier_inequality'), ('lagrange_inequality', 'uniform_inequality'),
+               ('barrier_inequality', 'linear_equality')]:
+    contract('C15/stack-iter/%s(%s)' % (_o, _i), ['C15'], P + _o + '.iter')(lambda h, o=_o, i=_i: _iter_levels(h, o, i))
